@@ -11,6 +11,7 @@ import (
 	"syscall"
 	"time"
 
+	"gitlab.com/gomidi/midi/v2/drivers"
 	"gitlab.com/gomidi/midi/v2/drivers/midicatdrv"
 
 	"verif/harness/mon"
@@ -22,7 +23,7 @@ func init() {
 		Level: "exploration",
 		Rule: "(a) in-memory driver: exhaustive enumeration of all protocol-respecting histories of exact length 7 (quick) / 9 (thorough) over {in.Open, in.Close, out.Open, out.Close, Listen, stop, Send}, through drivers.In.Listen and through midi.ListenTo, each step compared with a sequential lifecycle model; " +
 			"(b) process-backed driver under the race detector against a stand-in helper binary: seeded concurrent histories (1-2 port pairs, 1-8 concurrent senders, sleeping callbacks, listen/stop cycles with and without traffic in flight, IsOpen polling, injected helper delays), recorded at the client boundary with a logical clock and checked offline " +
-			"(no fabrication/duplication, per-sender order, exactly-once before an observed sentinel, no callback after stop returned, porcupine FIFO linearizability); (c) child processes whose main goroutine opens ports while the helper cannot be started. " +
+			"(no fabrication/duplication, per-sender order, exactly-once before an observed sentinel, no callback after stop returned, porcupine FIFO linearizability); (c) non-race child processes whose main goroutine opens ports while the helper cannot be started, and sends / listens / closes after the helper process has died (runtime deadlock detector decides 'blocks forever'). " +
 			"distinct: enumerated histories are distinct by construction; concurrent histories by seed index. Every history is non-trivial (contains at least one call whose result is compared with the model)",
 		Assumptions: []string{
 			"port protocol (drivers/port.go): Listen only on an open in-port with no active listener (midi.ListenTo opens the port itself), in.Close only with no active listener, a stop function only before the next Listen (calling it twice is allowed)",
@@ -32,7 +33,7 @@ func init() {
 			"race freedom is what the Go race detector reports on the executions produced (GORACE log, report blocks counted)",
 		},
 		Require: []string{"testdrv_histories", "testdrv_relistens", "testdrv_sends_before_first_listen", "testdrv_sends_closed", "testdrv_deliveries",
-			"mc_histories", "mc_deliveries", "mc_overlapping_sends", "mc_exactly_once_checks", "mc_stop_stamp_checks", "mc_porcupine_histories", "mc_relistens", "mc_stops_with_traffic_in_flight", "open_unstartable_probes"},
+			"mc_histories", "mc_deliveries", "mc_overlapping_sends", "mc_exactly_once_checks", "mc_stop_stamp_checks", "mc_porcupine_histories", "mc_relistens", "mc_stops_with_traffic_in_flight", "open_unstartable_probes", "helper_dies_probes"},
 		Workers: 8,
 		UsesCur: true,
 		Run:     runC17,
@@ -132,8 +133,8 @@ func runC17(c *mon.Ctx) {
 	})
 
 	// (c) no call blocks forever when the helper cannot be started
-	c.Each("open-unstartable", 3, func(i int64, _ *mon.Rand) {
-		mode := []string{"in", "out", "list"}[i]
+	c.Each("open-unstartable", 5, func(i int64, _ *mon.Rand) {
+		mode := []string{"in", "out", "list", "outdies", "indies"}[i]
 		exe, _ := os.Executable()
 		args := []string{"openprobe", mode}
 		if hd := os.Getenv("VERIF_HELPER_DIR"); hd != "" {
@@ -168,14 +169,21 @@ func runC17(c *mon.Ctx) {
 		}
 		lf.Close()
 		out, _ := os.ReadFile(logf)
-		c.Count("open_unstartable_probes", 1)
+		if mode == "outdies" || mode == "indies" {
+			c.Count("helper_dies_probes", 1)
+		} else {
+			c.Count("open_unstartable_probes", 1)
+		}
 		in := map[string]any{"probe": mode, "what": "helper made unstartable (PATH without midicat) after driver init, then " + mode + " port Open() on the main goroutine of an otherwise idle process"}
+		if mode == "outdies" || mode == "indies" {
+			in["what"] = "fault: the helper process exits right after it was started; then Send x 20 / Listen, stop, Close on the main goroutine of an otherwise idle process"
+		}
 		switch {
 		case bytes.Contains(out, []byte("all goroutines are asleep - deadlock!")):
-			c.Violation("open-blocks-forever:"+mode, "Open() with a helper that cannot be started never returns: the Go runtime reports 'all goroutines are asleep - deadlock!'", in, "Open returns an error", clipStr(string(out), 4000))
+			c.Violation("blocks-forever:"+mode, "a port call never returns (helper cannot be started / has died): the Go runtime reports 'all goroutines are asleep - deadlock!' | "+blockedFrame(string(out)), in, "the call returns (with an error)", clipStr(string(out), 4000))
 		case timedOut:
 			if bytes.Contains(out, []byte("midicatdrv.(*in).fireCmd")) && bytes.Contains(out, []byte("sync.(*RWMutex).Lock")) {
-				c.Violation("open-blocks-forever:"+mode, "Open() with a helper that cannot be started did not return within 30 s; the goroutine dump shows it blocked on its own mutex", in, "Open returns an error", clipStr(string(out), 4000))
+				c.Violation("blocks-forever:"+mode, "Open() with a helper that cannot be started did not return within 30 s; the goroutine dump shows it blocked on its own mutex", in, "Open returns an error", clipStr(string(out), 4000))
 			} else {
 				c.Inconclusive("open probe " + mode + " timed out without an attributable goroutine dump")
 			}
@@ -187,6 +195,19 @@ func runC17(c *mon.Ctx) {
 			c.Inconclusive(fmt.Sprintf("open probe %s ended unexpectedly (%v): %s", mode, werr, lastLine(string(out))))
 		}
 	})
+}
+
+// blockedFrame names the library frame of the main goroutine in a deadlock report.
+func blockedFrame(out string) string {
+	for _, l := range strings.Split(out, "\n") {
+		if strings.HasPrefix(l, "gitlab.com/gomidi/") {
+			if i := strings.IndexByte(l, '('); i > 0 {
+				return "blocked in " + l[:strings.LastIndexByte(l, '(')]
+			}
+			return "blocked in " + l
+		}
+	}
+	return ""
 }
 
 func setProcs(n int) int { return runtime.GOMAXPROCS(n) }
@@ -208,6 +229,49 @@ func OpenProbe(mode string) {
 	if err1 != nil || err2 != nil {
 		fmt.Println("OPENPROBE-SETUP-FAILED", err1, err2)
 		os.Exit(4)
+	}
+	if mode == "outdies" || mode == "indies" {
+		// fault: the helper process starts and exits at once (crash of the backing process)
+		dir, _ := os.MkdirTemp("", "verif-dies")
+		defer os.RemoveAll(dir)
+		os.Setenv("VERIF_MC_DIR", dir)
+		if mode == "outdies" {
+			os.Setenv("VERIF_MC_FAIL", "out")
+			if err := outs[0].Open(); err != nil {
+				fmt.Println("OPENPROBE-OK out.Open with a dying helper returned:", err)
+				return
+			}
+			time.Sleep(300 * time.Millisecond) // let the helper die
+			var errs []string
+			for k := 0; k < 20; k++ {
+				fmt.Println("send", k)
+				if err := outs[0].Send([]byte{0x90, byte(k), 1}); err != nil {
+					errs = append(errs, err.Error())
+					break
+				}
+			}
+			fmt.Println("closing")
+			outs[0].Close()
+			fmt.Println("OPENPROBE-OK all Send calls and Close returned with a dead out helper; errors:", errs)
+			return
+		}
+		os.Setenv("VERIF_MC_FAIL", "in")
+		if err := ins[0].Open(); err != nil {
+			fmt.Println("OPENPROBE-OK in.Open with a dying helper returned:", err)
+			return
+		}
+		time.Sleep(300 * time.Millisecond)
+		stop, err := ins[0].Listen(func([]byte, int32) {}, drivers.ListenConfig{})
+		fmt.Println("listen:", err)
+		if stop != nil {
+			stop()
+			stop()
+		}
+		fmt.Println("closing")
+		ins[0].Close()
+		ins[0].Close()
+		fmt.Println("OPENPROBE-OK Listen, stop and Close returned with a dead in helper")
+		return
 	}
 	// from here on the helper cannot be started any more
 	os.Setenv("PATH", "/nonexistent-verif")
